@@ -48,9 +48,25 @@ NAMES = ("sugar", "sugar_extended", "z3", "csugar", "enigma_csp", "cspuz_core")
 
 # ------------------------------------------------------------------ translator
 
+FALLBACK = """(* FALLBACK written by harness/pC20.py: the translator could NOT read /repo's source
+   (%s).
+   The check reports that as a tie that no longer holds; so that the rest of the run is deterministic
+   (and not a leftover of an earlier run) the tables are set to the prescribed ones: the correspondence
+   then compares the implementation with the prescribed behaviour. *)
+From Cspuz Require Import Backend.Config Backend.ConfigProofs.
+Definition tables : Config.tables := expected_tables.
+"""
+
+
 def translate(ctx):
-    text = c20_translate.render(c20_translate.read_all(vlib.REPO))
-    vlib.write_if_changed(os.path.join(vlib.GEN, "ConfigTables.v"), text)
+    path = os.path.join(vlib.GEN, "ConfigTables.v")
+    try:
+        text = c20_translate.render(c20_translate.read_all(vlib.REPO))
+    except Exception as ex:
+        msg = ("%s: %s" % (type(ex).__name__, ex)).replace("*)", "* )").replace("(*", "( *")
+        vlib.write_if_changed(path, FALLBACK % msg)
+        raise
+    vlib.write_if_changed(path, text)
 
 
 # ------------------------------------------------------------------ wire helpers
